@@ -2,24 +2,28 @@
 import ast
 import json
 import os
+import re
 import socket
 import threading
 import warnings
 
 import common
 import srvkit
-from props import c05_gen, c05_rig, c08
+from props import c05_gen, c05_rig, c05_tr, c08
 
 ID = "C05"
 LEAN_MODEL_TARGETS = ["drv_c05", "drv_c06"]
-LEAN_PROOF_TARGETS = ["PyroProps.C05"]
-AUDIT_FILES = ["PyroModel/Server.lean", "PyroModel/ServerLoop.lean", "PyroModel/Gen/C05.lean", "PyroProofs/ServerLoop.lean",
-               "PyroProps/C05.lean"]
+LEAN_PROOF_TARGETS = ["PyroProps.C05", "PyroProps.C05Src"]
+AUDIT_FILES = ["PyroModel/Server.lean", "PyroModel/ServerLoop.lean", "PyroModel/ServerLoopStreams.lean", "PyroModel/Gen/C05.lean",
+               "PyroProofs/ServerLoop.lean", "PyroProps/C05.lean", "PyroProps/C05Src.lean"]
 THEOREMS = ["Pyro.C05.C05_loop_survives", "Pyro.C05.C05_frame", "Pyro.C05.C05_witness_correct",
             "Pyro.C05.C05_no_stranded_worker", "Pyro.C05.C05_selector_exact", "Pyro.C05.C05_accounting_restored",
             "Pyro.C05.C05_accepts_after", "Pyro.C05.C05_objects_kept", "Pyro.C05.C05_refines_server",
             "Pyro.C05.C05_gen_cfg_good", "Pyro.C05.C05_gen_classes", "Pyro.C05.C05_gen_shape",
-            "Pyro.C05.C05_current_source", "Pyro.C05.C05_unguarded_deny_stops"]
+            "Pyro.C05.C05_current_source", "Pyro.C05.C05_unguarded_deny_stops",
+            "Pyro.C05.C05_clientDisconnect_translated", "Pyro.C05.C05_source_streams_of_others_kept",
+            "Pyro.C05.C05_source_own_streams_released", "Pyro.C05.C05_source_disconnect_adds_nothing",
+            "Pyro.C05.C05_gen_disconnect_rows", "Pyro.C05.C05_stream_survives", "Pyro.C05.C05_witness_next_item"]
 SUITES = ["loop", "classify"]
 RULE = ("histories on the real thread-pool and multiplex servers, driven through their own loop() over in-memory sockets, pool "
         "sizes 2-8, COMMTIMEOUT 0 / 0.2: 1-2 witness connections (handshake, then calls returning / raising serialisable and "
@@ -30,6 +34,9 @@ RULE = ("histories on the real thread-pool and multiplex servers, driven through
         "annotation lengths off by +-1, +-8, shifted, at and beyond MAX_MESSAGE_SIZE; every prefix truncation; payload bytes "
         "flipped; garbage with and without the PYRO tag), optionally with a valid message behind, ended by eof / reset / timeout, "
         "the peer gone (send fails) or not when the daemon answers; connections beyond the pool size are denied by the acceptor; "
+        "a witness may be half way through an item stream (it opens one and fetches 1-3 items with get_next_stream_item, anywhere "
+        "among its calls; ITER_STREAM_LINGER default / 1e-9 / 0; the thread server's housekeeper pass runs after every delivery); "
+        "a hostile caller may stay connected and wait after a call whose method raises a Pyro CommunicationError; "
         "afterwards every hostile peer disconnects and a new connection handshakes and calls.  The bytes are classified into model "
         "items with the real decoder and the classification is checked against the C06 decoder model (suite classify). "
         "non-trivial = the history contains a hostile delivery that the daemon did not simply accept, next to a witness call "
@@ -42,7 +49,9 @@ ASSUMPTIONS = ["byte level (exact reads, header validation) is as proved for C17
                "quantifier of the property (\"cut short by a disconnect\"); every generated partial message is followed by an ending",
                "exceptions that are not subclasses of Exception (KeyboardInterrupt, SystemExit) are outside the statement",
                "thread scheduling: deliveries are made one at a time and the harness waits until the serving thread is idle again"]
-TRUSTED = ["harness/srvkit.py + harness/props/c05_rig.py (in-memory sockets / listener / selector; real Daemon, real loop(), real Pool)",
+TRUSTED = ["harness/props/c05_tr.py (transcriber of Daemon._clientDisconnect: refuses what it does not understand; its output is "
+           "checked against the real function's answers on 12 probed tables by C05_gen_disconnect_rows)",
+           "harness/srvkit.py + harness/props/c05_rig.py (in-memory sockets / listener / selector; real Daemon, real loop(), real Pool)",
            "classification of mutated bytes into model items (c05_gen.classify: real decoder + real deserialiser, checked against drv_c06)"]
 
 
@@ -402,11 +411,17 @@ def extract():
                 ok = False
             fallback_all = fallback_all and ok
 
+    # ---- Daemon._clientDisconnect, TRANSCRIBED from its current source (c05_tr: symbolic execution per atom assignment, ----
+    # ---- re-emitted as a normalised decision tree), and the real function's answers on a fixed table of inputs --------------
+    src_lean = c05_tr.transcribe(server)        # raises c05_tr.Untranslatable: the tie is broken, the runner searches an input
+    src_rows = c05_tr.lean_rows(c05_tr.probe_rows(server))
+
     L = lambda xs: "[" + ", ".join("." + x for x in xs) + "]"
     b = lambda x: "true" if x else "false"
     return f"""-- GENERATED by harness/props/c05.py by running the real layers of Pyro5/svr_threads.py, svr_multiplex.py, server.py,
 -- protocol.py with stand-ins (see extract()) — do not edit
 import PyroModel.ServerLoop
+import PyroModel.ServerLoopStreams
 namespace Pyro.Gen.C05
 open Pyro.ServerLoop
 /-- per containment layer: the classes whose representative, raised inside it, does not leave it -/
@@ -439,6 +454,13 @@ def headerPrefixValidatedFirst : Bool := {b(prefix_first)}
 /-- Daemon._sendExceptionResponse sends an error reply for exceptions whose serialisation fails with TypeError,
     AttributeError, RuntimeError, RecursionError ..., under every serializer -/
 def exceptionFallbackCatchesAll : Bool := {b(fallback_all)}
+
+-- ---- transcribed from the source of Pyro5/server.py Daemon._clientDisconnect (harness/props/c05_tr.py) ----
+open Pyro.ServerLoop.Streams
+{src_lean}
+/-- what the REAL `_clientDisconnect(conn 1)` did at extraction time (time.time() = 77): (ITER_STREAM_LINGER, table before as
+    (id, entry) list, (id, entry afterwards) list) -/
+def disconnectRows : List (Nat × List (Nat × Entry) × List (Nat × Option Entry)) := {src_rows}
 end Pyro.Gen.C05
 """
 
@@ -447,7 +469,7 @@ end Pyro.Gen.C05
 def run_real(h, servertype):
     rig = c05_rig.LoopRig(servertype, poolsize=h["poolsize"], commtimeout=float(h["commtimeout"]),
                           linger=(float(h["linger"]) if h.get("linger") not in (None, "None") else None))
-    out = {"stuck": None, "snap": {}, "fresh_pool_full": None, "outbound": []}
+    out = {"stuck": None, "snap": {}, "fresh_pool_full": None, "outbound": [], "unanswered": []}
     try:
         objs_before = {k: id(v) for k, v in rig.daemon.objectsById.items()}
         try:
@@ -463,7 +485,20 @@ def run_real(h, servertype):
                     out["snap"]["post"] = rig.accounting()
                     out["fresh_pool_full"] = rig.pool_full() if servertype == "thread" else False
                 before = len(rig.outbound())
-                rig.deliver(st[1], common.unhx(st[2]), st[3], st[4])
+                data = common.unhx(st[2])
+                if len(st) > 7 and st[7] == "streamnext":
+                    # the call names the stream the daemon opened for this connection: its id is in the reply it got
+                    sid = rig.stream_id(st[1])
+                    if sid is not None and len(sid) == len(c05_rig.STREAM_PLACEHOLDER):
+                        data = data.replace(c05_rig.STREAM_PLACEHOLDER, sid)
+                nrep = len(rig.replies(st[1]))
+                rig.deliver(st[1], data, st[3], st[4])
+                # a complete request (not oneway) from a peer that stays connected and waits: answered, or the connection ended
+                if st[3] is None and not st[4] and st[5] and rig.loop_alive and st[1] in rig.started \
+                        and all(it[0] == "M" and it[4] == "0" for it in st[5]):
+                    s = rig.socks[st[1]]
+                    if not s.closed and len(rig.replies(st[1])) == nrep:
+                        out["unanswered"].append((i, st[1], st[7] if len(st) > 7 else "semantic"))
                 for where, thread in rig.outbound()[before:]:
                     out["outbound"].append((i, st[7] if len(st) > 7 else "?", where))
             rig.settle_pool()
@@ -520,9 +555,9 @@ def expected_reply(exp):
     k = exp[0]
     if k in ("connectok", "fresh-handshake"):
         return (2, exp[1], exp[2], False, None)
-    if k in ("result", "fresh-call"):
+    if k in ("result", "fresh-call", "item"):
         return (5, exp[1], exp[2], False, exp[3])
-    if k == "error":
+    if k in ("error", "stream"):     # an item stream is announced by an exception reply that carries the stream id (STRM)
         return (5, exp[1], exp[2], True, None)
     if k == "ping":
         return (6, exp[1], exp[2], False, None)
@@ -585,11 +620,26 @@ def oracle_case(ctx, h, servertype, out, case):
                  "or refused) and stays connected; the %s waited for further bytes from it%s"
                  % (st, w[0][0], w[0][1], {"loop": ": the whole multiplex loop stands still", "acceptor": ": nothing is accepted meanwhile",
                                            "worker": ""}[w[0][1]]), case)
+    # a caller that stays connected and waits gets an answer or loses the connection - never neither (it would wait for ever,
+    # and so would the thread serving it)
+    for i, c, kind in out.get("unanswered", [])[:1]:
+        ctx.fail("no-reply-no-close:" + st,
+                 "%s server: step %d (%s) is a complete request on connection %d, whose peer stays connected and waits for the "
+                 "answer: the daemon neither answered nor ended the connection - the caller%s wait for each other for good"
+                 % (st, i, kind, c, " and the worker serving it" if st == "thread" else " and its registration in the loop"), case)
     # witnesses: exactly the correct replies to their own calls, still connected
     for w in h["witnesses"]:
-        want = [expected_reply(s[6]) for s in h["steps"] if s[0] == "send" and s[1] == w and s[6]]
+        wsteps = [s for s in h["steps"] if s[0] == "send" and s[1] == w and s[6]]
+        want = [expected_reply(s[6]) for s in wsteps]
         got = out["replies"][w]
-        if len(got) != len(want) or not all(reply_matches(g, x) for g, x in zip(got, want)):
+        lost = [s for s, g in zip(wsteps, got) if s[6][0] == "item" and not reply_matches(g, expected_reply(s[6]))]
+        if lost and all(reply_matches(g, expected_reply(s[6])) for s, g in zip(wsteps, got) if s[6][0] != "item"):
+            ctx.fail("witness-stream-lost:" + st,
+                     "%s server (ITER_STREAM_LINGER=%s): witness connection %d, connected all along, is half way through an item "
+                     "stream; fetching item %r it got %s instead - its stream was dropped while OTHER connections came and went"
+                     % (st, h.get("linger"), w, lost[0][6][3],
+                        "an error reply" if got[wsteps.index(lost[0])][3] else "a wrong item"), case)
+        elif len(got) != len(want) or not all(reply_matches(g, x) for g, x in zip(got, want)):
             ctx.fail("witness-reply:" + st, "%s server: witness connection %d received %r, its own calls demand %r"
                      % (st, w, [(g[0], g[1], g[2], g[3]) for g in got], [x[:4] for x in want]), case)
         o = out["obs"][w]
@@ -736,10 +786,9 @@ def _run_chunk(ctx, gen, hists, do_model, state):
             outs = common.run_driver("drv_c06", [c[0] for c in checks])
             ctx.corr_cases += len(checks)
             for (l, r), o in zip(checks, outs):
-                # " IR!" / " IH!" are drv_c06's own cross-checks of C06's source transcriptions (Gen/C06.lean, which this
+                # " IR!" / " IH!" / " IG!" ... (any " I<letter>!") are drv_c06's own cross-checks of C06's source transcriptions (Gen/C06.lean, which this
                 # check does not regenerate): not part of the classification
-                while o.endswith((" IR!", " IH!", " IS!")):
-                    o = o[:-4]
+                o = re.sub(r"( I[A-Z]!)+$", "", o)
                 if r != o:
                     ctx.mismatch("classify", {"line": l[:800]}, r[:300], o[:300])
     else:
